@@ -7,6 +7,7 @@ of one server sharing the LRU-cached store) or on a SECOND store object over the
 process).  Preemption by nested call: no threads, all data stays symbolic.
 """
 
+import xv
 from xv import ctx
 from xv.core import Harness, run
 from xv.env import mstore
@@ -261,8 +262,8 @@ def real_interleave(args, part):
             S[nm] = c.decode("latin-1")
     payload = [S, opA, NAMES[tA], bodyA.decode("latin-1"), opB, NAMES[tB], bodyB.decode("latin-1"), bool(same)]
     p = subprocess.run(["/venv/bin/python", os.path.join(os.path.dirname(__file__), "..", "real_c05.py"),
-                        json.dumps(payload)], capture_output=True, text=True, cwd="/repo",
-                       env={"PATH": os.environ.get("PATH", "")})
+                        json.dumps(payload)], capture_output=True, text=True, cwd=xv.REPO,
+                       env={"PATH": os.environ.get("PATH", ""), "PYTHONPATH": xv.REPO})
     if p.returncode != 0:
         return (None, "real replay failed to run: " + p.stderr[-500:])
     ok, detail = json.loads(p.stdout.strip().splitlines()[-1])
